@@ -1919,4 +1919,116 @@ theorem mixR_total {w w' : World} {r : Nat} {ins : List Ref} {eb : Bool} (h : mi
     have hv1 : ∀ s ∈ w1.strms, ValidPh s := bindAll_valid ins w w1 is hb hl hv
     rw [amount_trim hr, mixE_total hm hv1, hsum]
 
+/-! ### holders of shared flow data: in-place scaling is seen by every holder -/
+
+/-- what a holder of shared flow data reads of chemical `c` -/
+def holderAmount (w : World) (a : Alias) (c : Nat) : Rat :=
+  match derive w a with
+  | some s => amount (w.pkgOf s) s c
+  | none => 0
+
+theorem rowOf_cons (x : Char × Row) (l : PhRows) (q : Char) :
+    rowOf (x :: l) q = if x.1 == q then x.2 else rowOf l q := by
+  unfold rowOf
+  simp only [List.find?_cons]
+  cases h : (x.1 == q) <;> simp
+
+theorem get_rowOf_map_vscale {n i : Nat} (hi : i < n) (k : Rat) (l : PhRows) (q : Char) :
+    (rowOf (l.map (fun pr => (pr.1, vscale n k pr.2))) q).get i = (rowOf l q).get i * k := by
+  induction l with
+  | nil => simp [rowOf, Row.get]
+  | cons x l ih =>
+    simp only [List.map_cons, rowOf_cons]
+    cases h : (x.1 == q)
+    · simpa using ih
+    · simp [get_vscale hi]
+
+theorem rowKey_rowOf_map_vscale (P : List Nat) (k : Rat) (l : PhRows) (q : Char) (c : Nat) :
+    rowKey P (rowOf (l.map (fun pr => (pr.1, vscale P.length k pr.2))) q) c = rowKey P (rowOf l q) c * k := by
+  unfold rowKey
+  cases hP : pos P c with
+  | none => simp
+  | some i => simp only []; exact get_rowOf_map_vscale (pos_lt hP) k l q
+
+/-- **Multiplying a stream in place multiplies what every holder of its flow data reads** (`ms *= k`, `ms.scale(k)`:
+the phase views `ms[p]`, flow proxies and `from_streams` constituents read `k` times what they read). -/
+theorem scale_holder_linear {w w' : World} {j : Nat} {k : Rat} {a : Alias} {owner cur : Strm}
+    (h : scale w j k = .ok w') (haj : a.j = j) (hij : a.i ≠ j)
+    (ho : w.strms[j]? = some owner) (hc : w.strms[a.i]? = some cur) (hp : cur.pkg = owner.pkg) (c : Nat) :
+    holderAmount w' a c = holderAmount w a c * k := by
+  unfold scale at h
+  rw [get?_ok.mpr ho] at h
+  simp only [bind, Except.bind] at h
+  cases h
+  have ho' : (w.setStrm j (owner.mapRows (vscale (w.pkgOf owner).length k))).strms[a.j]? =
+      some (owner.mapRows (vscale (w.pkgOf owner).length k)) := by
+    rw [haj]; exact getElem?_setStrm_same ho _
+  have hc' : (w.setStrm j (owner.mapRows (vscale (w.pkgOf owner).length k))).strms[a.i]? = some cur := by
+    rw [getElem?_setStrm_other (Ne.symm hij)]; exact hc
+  have hpk : w.pkgOf cur = w.pkgOf owner := pkgOf_eq_of_pkg hp
+  unfold holderAmount derive
+  rw [ho', hc', haj, ho, hc]
+  cases a.q with
+  | none =>
+    simp only [pkgOf_setStrm]
+    have e1 : ∀ m ph, w.pkgOf { cur with multi := m, ph := ph } = w.pkgOf owner := fun _ _ => hpk
+    rw [amount_eq_key, amount_eq_key, e1, e1]
+    exact key_mapRows_vscale (w.pkgOf owner) owner k c
+  | some q =>
+    simp only [pkgOf_setStrm]
+    have e1 : ∀ m ph, w.pkgOf { cur with multi := m, ph := ph } = w.pkgOf owner := fun _ _ => hpk
+    rw [amount_eq_key, amount_eq_key, e1, e1, key_single, key_single]
+    exact rowKey_rowOf_map_vscale (w.pkgOf owner) k owner.ph q c
+
+theorem rowOf_modAt {q : Char} (f : Row → Row) {l : PhRows} (h : hasPh l q = true) :
+    rowOf (modAt q f l) q = f (rowOf l q) := by
+  induction l with
+  | nil => simp [hasPh] at h
+  | cons x l ih =>
+    obtain ⟨p, r⟩ := x
+    unfold modAt
+    by_cases hp : (p == q) = true
+    · simp [hp, rowOf_cons]
+    · have h' : hasPh l q = true := by rw [hasPh_cons] at h; simpa [hp] using h
+      simp [hp, rowOf_cons, ih h']
+
+theorem key_modAt (P : List Nat) (q : Char) (f : Row → Row) {l : PhRows} (h : hasPh l q = true) (c : Nat) :
+    key P (modAt q f l) c = key P l c - rowKey P (rowOf l q) c + rowKey P (f (rowOf l q)) c := by
+  induction l with
+  | nil => simp [hasPh] at h
+  | cons x l ih =>
+    obtain ⟨p, r⟩ := x
+    unfold modAt
+    by_cases hp : (p == q) = true
+    · simp only [hp, if_true, key_cons, rowOf_cons]; ring
+    · have h' : hasPh l q = true := by rw [hasPh_cons] at h; simpa [hp] using h
+      have hp' : (p == q) = false := by simpa using hp
+      simp only [hp', Bool.false_eq_true, if_false, rowOf_cons]
+      rw [key_cons, key_cons, ih h']; ring
+
+/-- **Multiplying a phase view in place** (`liq = ms['l']; liq *= k`): the view reads `k` times its row, and the
+multi-phase stream that owns the row changes by exactly that. -/
+theorem scaleRow_total {w w' : World} {j : Nat} {q : Char} {k : Rat} {owner : Strm}
+    (h : scaleRow w j q k = .ok w') (ho : w.strms[j]? = some owner) (hq : hasPh owner.ph q = true) (c : Nat) :
+    w'.amount j c = w.amount j c + (k - 1) * rowKey (w.pkgOf owner) (rowOf owner.ph q) c ∧
+    (∃ owner', w'.strms[j]? = some owner' ∧
+      rowKey (w.pkgOf owner) (rowOf owner'.ph q) c = rowKey (w.pkgOf owner) (rowOf owner.ph q) c * k) := by
+  unfold scaleRow at h
+  rw [get?_ok.mpr ho] at h
+  simp only [bind, Except.bind] at h
+  cases h
+  have hk : ∀ r : Row, rowKey (w.pkgOf owner) (vscale (w.pkgOf owner).length k r) c = rowKey (w.pkgOf owner) r c * k := by
+    intro r
+    unfold rowKey
+    cases hP : pos (w.pkgOf owner) c with
+    | none => simp
+    | some i => simp only []; exact get_vscale (pos_lt hP) k r
+  constructor
+  · rw [amount_setStrm_same ho, amount_of_get ho, amount_eq_key, amount_eq_key]
+    have e : w.pkgOf { owner with ph := modAt q (vscale (w.pkgOf owner).length k) owner.ph } = w.pkgOf owner := rfl
+    rw [e, key_modAt _ q _ hq, hk]; ring
+  · refine ⟨_, getElem?_setStrm_same ho _, ?_⟩
+    simp only []
+    rw [rowOf_modAt _ hq, hk]
+
 end ThermoVerif.FlowOps
